@@ -343,8 +343,9 @@ func vc04Frame(kind string) (uint16, []byte) {
 		return 0xc021, []byte{9, 1, 0, 8, 0, 0, 0, 0}
 	case "ep": // LCP Echo-Reply
 		return 0xc021, []byte{10, 1, 0, 8, 0, 0, 0, 0}
-	case "pap": // PAP Authenticate-Request "u"/"p"
-		return 0xc023, []byte{1, 1, 0, 8, 1, 'u', 1, 'p'}
+	case "pap": // PAP Authenticate-Ack (a PAP frame that reaches the session without renaming it; the renaming
+		// path is exercised by the name: kind, which the model follows)
+		return 0xc023, []byte{2, 1, 0, 5, 0}
 	case "chap": // CHAP Response
 		return 0xc223, []byte{2, 1, 0, 7, 1, 0xaa, 'u'}
 	case "ip": // IPCP Configure-Request
